@@ -154,4 +154,18 @@ CONFIG = {
         "quick": {"checks": 100, "shards": 16},
         "thorough": {"checks": 2500, "shards": 16, "timeout": 7200},
     },
+    "C15": {
+        "rule": "one rapid property per claimed indicator (22 registry entries): admissible configuration x valid OHLCV of a drawn class (walk, flat, monotone, sawtooth, ties, zeros, "
+                "spikes, two-decimal, flat bars; positive prices, low <= open, close <= high, volume >= 0; single-series indicators are fed the closes), n in [0, 3w+40]. Oracle: the "
+                "inequalities of the statement with tolerance 1e-9 x scale; a position is exempt when the output is NaN/Inf or - for quotient-type indicators - the doc-comment "
+                "reference is undefined there (zero defining denominator, decided by error-tracked arithmetic, not by the output). Non-trivial: >= 1 checked value and a value "
+                "at/within 1% of a bound or a tie-rich series. Distinct = (indicator, configuration, series).",
+        "technique": "property-based testing (rapid) of range / ordering invariants on generated valid OHLCV, reference used only to decide exemptions",
+        "level_text": "Range and ordering inequalities are asserted on every emitted value for generated valid OHLCV series rich in ties, flat bars, monotone runs and zero volumes; no reference value enters the verdict, only the exemption for zero denominators. Sampling.",
+        "level_note": "Exemptions come from the reference's denominators (reg/ + ref/). Aroon's recorded defect is matched by its defect model and reported as a known finding.",
+        "assumptions": ["valid OHLCV as generated by gen.GenBarsOf (self-checked per case)"],
+        "gomaxprocs": [1],
+        "quick": {"checks": 400, "shards": 16},
+        "thorough": {"checks": 8000, "shards": 16, "timeout": 7200},
+    },
 }
